@@ -21,18 +21,10 @@ Inductive ty :=
 | TTicket (c : cty)
 | TPair (a b : ty) | TOption (a : ty) | TList (a : ty)
 | TBool
-| TMap (big : bool) (v : ty).      (* map nat v / big_map nat v: keys are nat in this model *)
+| TMap (big : bool) (v : ty)
+| TLambda (a r : ty).      (* map nat v / big_map nat v: keys are nat in this model *)
 
 Inductive cval := CN (z : Z) | CS (s : bytes) | CNone (t : cty) | CSome (c : cval) | CPairV (a b : cval).
-
-Inductive val :=
-| VNat (z : Z) | VStr (s : bytes) | VAddr (a : bytes)
-| VTicket (ticketer : bytes) (content : cval) (amount : Z)
-| VPair (a b : val)
-| VSome (v : val) | VNone (t : ty)
-| VList (t : ty) (l : list val)
-| VBool (b : bool)
-| VMap (big : bool) (vt : ty) (m : list (Z * val)).
 
 Inductive instr :=
 | TICKET | READ_TICKET | SPLIT_TICKET | JOIN_TICKETS
@@ -41,8 +33,19 @@ Inductive instr :=
 | SOME | NONE (t : ty) | IF_NONE (bt bf : list instr)
 | NIL (t : ty) | CONS | IF_CONS (bt bf : list instr) | ITER (body : list instr) | MAP (body : list instr)
 | EMPTY_MAP (big : bool) (vt : ty) | UPDATE | GET_AND_UPDATE | MEM | GET
+| LAMBDA (a r : ty) (body : list instr) | EXEC | APPLY | LOOP (body : list instr) | PUSH_BOOL (b : bool)
 | PUSH_NAT (z : Z) | PUSH_STR (s : bytes)
 | SELF_IS (a : bytes).       (* harness pseudo-instruction: context.address := a *)
+
+Inductive val :=
+| VNat (z : Z) | VStr (s : bytes) | VAddr (a : bytes)
+| VTicket (ticketer : bytes) (content : cval) (amount : Z)
+| VPair (a b : val)
+| VSome (v : val) | VNone (t : ty)
+| VList (t : ty) (l : list val)
+| VBool (b : bool)
+| VMap (big : bool) (vt : ty) (m : list (Z * val))
+| VLam (a r : ty) (caps : list val) (body : list instr).   (* closure: values captured by APPLY, in capture order *)
 
 (* ---- equality tests ---- *)
 Fixpoint cty_eqb (a b : cty) : bool :=
@@ -61,6 +64,7 @@ Fixpoint ty_eqb (a b : ty) : bool :=
   | TOption x, TOption y | TList x, TList y => ty_eqb x y
   | TBool, TBool => true
   | TMap b1 x, TMap b2 y => Bool.eqb b1 b2 && ty_eqb x y
+  | TLambda a1 r1, TLambda a2 r2 => ty_eqb a1 a2 && ty_eqb r1 r2
   | _, _ => false
   end.
 
@@ -100,6 +104,15 @@ Fixpoint val_eqb (a b : val) : bool :=
          | (k1, x) :: r1, (k2, y) :: r2 => (k1 =? k2) && val_eqb x y && go r1 r2
          | _, _ => false
          end) m1 m2
+  (* closures are compared up to their code (types, captured values, code length) *)
+  | VLam a1 r1 c1 b1, VLam a2 r2 c2 b2 =>
+      ty_eqb a1 a2 && ty_eqb r1 r2 && Nat.eqb (length b1) (length b2) &&
+      (fix go (l1 l2 : list val) : bool :=
+         match l1, l2 with
+         | [], [] => true
+         | x :: r1, y :: r2 => val_eqb x y && go r1 r2
+         | _, _ => false
+         end) c1 c2
   | _, _ => false
   end.
 
@@ -142,6 +155,7 @@ Fixpoint type_of (v : val) : ty :=
   | VList t _ => TList t
   | VBool _ => TBool
   | VMap big vt _ => TMap big vt
+  | VLam a r _ _ => TLambda a r
   end.
 
 (* MichelsonType.is_duplicable: false for ticket, otherwise all type arguments duplicable *)
@@ -150,6 +164,16 @@ Fixpoint duplicable (t : ty) : bool :=
   | TTicket _ => false
   | TPair a b => duplicable a && duplicable b
   | TOption a | TList a | TMap _ a => duplicable a
+  | _ => true
+  end.
+
+(* MichelsonType.is_pushable: false for big_map and ticket (operation, sapling_state are not modelled), lambda true *)
+Fixpoint pushable (t : ty) : bool :=
+  match t with
+  | TTicket _ => false
+  | TMap true _ => false
+  | TMap false a | TOption a | TList a => pushable a
+  | TPair a b => pushable a && pushable b
   | _ => true
   end.
 
@@ -255,7 +279,12 @@ Fixpoint content_of (v : val) : option cval :=
   | _ => None
   end.
 
-Fixpoint step (i : instr) (st : state) {struct i} : result state :=
+(* [fuel] bounds the nesting of control structures, EXEC depth and LOOP iterations; a sequence runs at constant fuel.
+   Running out of fuel gives Reject: every theorem is about runs that end in Ok. *)
+Fixpoint step (fuel : nat) (i : instr) (st : state) {struct fuel} : result state :=
+  match fuel with
+  | O => Reject
+  | S f =>
   match i, stk st with
   | TICKET, item :: VNat amount :: s =>
       match content_of item with
@@ -299,18 +328,18 @@ Fixpoint step (i : instr) (st : state) {struct i} : result state :=
   | CDR, VPair _ b :: s => Ok (with_stk st (b :: s))
   | SOME, x :: s => Ok (with_stk st (VSome x :: s))
   | NONE t, s => Ok (with_stk st (VNone t :: s))
-  | IF_NONE bt bf, VNone _ :: s => run_with step bt (with_stk st s)
-  | IF_NONE bt bf, VSome x :: s => run_with step bf (with_stk st (x :: s))
+  | IF_NONE bt bf, VNone _ :: s => run_with (step f) bt (with_stk st s)
+  | IF_NONE bt bf, VSome x :: s => run_with (step f) bf (with_stk st (x :: s))
   | NIL t, s => Ok (with_stk st (VList t [] :: s))
   | CONS, x :: VList t l :: s =>
       if ty_eqb t (type_of x) then Ok (with_stk st (VList t (x :: l) :: s)) else Reject
-  | IF_CONS bt bf, VList t (x :: l) :: s => run_with step bt (with_stk st (x :: VList t l :: s))
-  | IF_CONS bt bf, VList t [] :: s => run_with step bf (with_stk st s)
-  | ITER body, VList _ l :: s => iter_with step body l (with_stk st s)
+  | IF_CONS bt bf, VList t (x :: l) :: s => run_with (step f) bt (with_stk st (x :: VList t l :: s))
+  | IF_CONS bt bf, VList t [] :: s => run_with (step f) bf (with_stk st s)
+  | ITER body, VList _ l :: s => iter_with (step f) body l (with_stk st s)
   (* IterInstruction has no type assertion and PairType is iterable (its two items): mirrored *)
-  | ITER body, VPair a b :: s => iter_with step body [a; b] (with_stk st s)
+  | ITER body, VPair a b :: s => iter_with (step f) body [a; b] (with_stk st s)
   | MAP body, VList t l :: s =>
-      match map_with step body l (with_stk st s) [] with
+      match map_with (step f) body l (with_stk st s) [] with
       | Ok (st', items) =>
           match list_from_items t items with
           | Ok v => Ok (with_stk st' (v :: stk st'))
@@ -318,7 +347,7 @@ Fixpoint step (i : instr) (st : state) {struct i} : result state :=
           end
       | Reject => Reject
       end
-  | ITER body, VMap false _ m :: s => iter_with step body (map (fun kv => VPair (VNat (fst kv)) (snd kv)) m) (with_stk st s)
+  | ITER body, VMap false _ m :: s => iter_with (step f) body (map (fun kv => VPair (VNat (fst kv)) (snd kv)) m) (with_stk st s)
   | EMPTY_MAP big vt, s => Ok (with_stk st (VMap big vt [] :: s))
   (* UPDATE / GET_AND_UPDATE: key nat, new value Some v (of the declared value type) or None *)
   | UPDATE, VNat k :: VSome v :: VMap big vt m :: s =>
@@ -333,13 +362,37 @@ Fixpoint step (i : instr) (st : state) {struct i} : result state :=
   (* MapType.get / BigMapType.get (after fix 797a986): "use GET_AND_UPDATE instead" unless the values are duplicable *)
   | GET, VNat k :: VMap _ vt m :: s =>
       if duplicable vt then Ok (with_stk st (opt_of vt (map_get k m) :: s)) else Reject
+  | LAMBDA a r body, s => Ok (with_stk st (VLam a r [] body :: s))
+  (* APPLY: the lambda's argument type is a pair, the captured value has its left type; the new code is
+     { PUSH ty v ; PAIR ; old code } - the PUSH runs (and is_pushable is asserted) at EXEC time *)
+  | APPLY, x :: VLam (TPair a1 a2) r caps body :: s =>
+      if ty_eqb a1 (type_of x) then Ok (with_stk st (VLam a2 r (caps ++ [x]) body :: s)) else Reject
+  | EXEC, x :: VLam a r caps body :: s =>
+      if ty_eqb a (type_of x) && forallb (fun c => pushable (type_of c)) caps
+      then match run_with (step f) body {| self := self st; stk := [fold_right VPair x caps]; minted := minted st |} with
+           | Ok st' =>
+               match stk st' with
+               | [y] => if ty_eqb r (type_of y) then Ok {| self := self st'; stk := y :: s; minted := minted st' |} else Reject
+               | _ => Reject
+               end
+           | Reject => Reject
+           end
+      else Reject
+  | LOOP body, VBool true :: s =>
+      match run_with (step f) body (with_stk st s) with
+      | Ok st' => step f (LOOP body) st'
+      | Reject => Reject
+      end
+  | LOOP body, VBool false :: s => Ok (with_stk st s)
+  | PUSH_BOOL b, s => Ok (with_stk st (VBool b :: s))
   | PUSH_NAT z, s => if z <? 0 then Reject else Ok (with_stk st (VNat z :: s))
   | PUSH_STR x, s => Ok (with_stk st (VStr x :: s))
   | SELF_IS a, s => Ok {| self := a; stk := s; minted := minted st |}
   | _, _ => Reject
+  end
   end.
 
-Definition run : list instr -> state -> result state := run_with step.
+Definition run (fuel : nat) : list instr -> state -> result state := run_with (step fuel).
 
 (* ---- what the property talks about ---- *)
 
@@ -384,7 +437,8 @@ Fixpoint has_ticket_instr (i : instr) : bool :=
   | IF_NONE a b | IF_CONS a b =>
       (fix go (l : list instr) : bool := match l with [] => false | x :: r => has_ticket_instr x || go r end) a ||
       (fix go (l : list instr) : bool := match l with [] => false | x :: r => has_ticket_instr x || go r end) b
-  | ITER a | MAP a =>
+  | EXEC => true       (* the code of a closure is not inspected: conservatively "may mint" *)
+  | ITER a | MAP a | LOOP a | LAMBDA _ _ a =>
       (fix go (l : list instr) : bool := match l with [] => false | x :: r => has_ticket_instr x || go r end) a
   | _ => false
   end.
@@ -397,7 +451,8 @@ Definition init (a : bytes) : state := {| self := a; stk := []; minted := [] |}.
 Definition observe (r : result state) : result (list val) :=
   match r with Ok st => Ok (stk st) | Reject => Reject end.
 
-Definition exec_from (a : bytes) (p : list instr) : result (list val) := observe (run p (init a)).
+Definition FUEL : nat := 400.
+Definition exec_from (a : bytes) (p : list instr) : result (list val) := observe (run FUEL p (init a)).
 
 Definition stack_eqb : list val -> list val -> bool := list_eqb val_eqb.
 Definition obs_eqb : result (list val) -> result (list val) -> bool := result_eqb stack_eqb.
